@@ -209,3 +209,16 @@ Example schedule_internal_defer_before_body_refuted :
   stack_safe [] [] (outer_run exec_range_defer_first 1%N [2%N] None) = false /\
   no_uaf [] (submit_events 1%N ++ thread_events exec_range_defer_first true None [1; 2; 3]%N) = true.
 Proof. exact (conj nested_defer_first_refuted defer_first_flat_ok). Qed.
+
+(* The "eventually" of schedule() on the internal backend rests on the wake-up handshake: the scheduling thread
+   publishes the task and then checks m_NumThreadsWaiting, the idle worker publishes m_NumThreadsWaiting and then
+   checks the pipes.  Store-buffer litmus (x86-TSO, 4 memory/buffer bits): both checks can miss both publications —
+   a lost wake-up, the closure is not run until something else wakes the worker — unless EACH side has a full fence
+   between its store and its load. *)
+Theorem schedule_internal_wakeup_needs_both_fences : forall fence_scheduler fence_worker,
+  lost_wakeup_possible fence_scheduler fence_worker = negb (fence_scheduler && fence_worker).
+Proof. exact litmus_iff. Qed.
+Print Assumptions schedule_internal_wakeup_needs_both_fences.
+(* as found: only the worker side is fenced (its increment is an atomic RMW); the scheduler side reads plainly *)
+Example schedule_internal_wakeup_as_found_refuted : lost_wakeup_possible false true = true.
+Proof. exact (proj1 (proj2 litmus_table)). Qed.
